@@ -97,6 +97,8 @@ def scenarios(ctx):
     out = []
     for profile in ('pub', 'pubsub'):
         for win0 in (1, 2, 3):
+            if q and (profile, win0) not in (('pub', 1), ('pubsub', 2), ('pub', 3)):
+                continue
             init = CONNECTED + ((('setwin', 0, win0),) if win0 != 1 else ())
             out.append(Std('%s-w%d' % (profile, win0), profile=profile, mode='sync', init=init,
                            budgets=dict(pub=3 if q else 5, ack=3 if q else 4, dack=1, stray=1, setwin=1 if q else 2,
@@ -109,11 +111,11 @@ def scenarios(ctx):
                        budgets=dict(connect=1, connack=1, pub=3 if q else 4, ack=3, setwin=1, tick=1),
                        windows=(1, 2)))
     # resumed sessions that inherit in-flight packets
-    for mode in ('sync', 'async'):
+    for mode in ('sync',):      # transport mode is irrelevant without client-side close requests
         out.append(Std('pubsub-persist-%s' % mode, profile='pubsub', mode=mode, init=CONNECTED_P,
                        connects=[(False, 0, 4)], reconnects=[(False, 0, 4), (True, 0, 4)],
-                       budgets=dict(pub=3, ack=3 if q else 4, setwin=1, lose=1, rebuild=1, connect=1, connack=1,
-                                    tick=1 if q else 2),
+                       budgets=dict(pub=3, ack=2 if q else 4, setwin=1 if not q else 0, lose=1, rebuild=1, connect=1,
+                                    connack=1, tick=1 if q else 2),
                        windows=(1, 2)))
     return out
 
